@@ -676,6 +676,15 @@ class OGen:
       else:
         f = r.choice(funcs)
         self.emit(f"{v} = {g}({f}(1), {f}(2)).swap()")
+    # one erroneous body reached through several call sites and call depths: the same error is
+    # logged repeatedly with equal, comparable and incomparable tracebacks (error-log dedup)
+    need, hot, via = self.name(), self.name(), self.name()
+    self.emit(f"def {need}(i: int) -> int:", "  return i",
+              f"def {hot}(x, y=None):", f"  a = x.{self.name()}", "  b = x + 1", f"  c = {need}(x)", "  d = x()",
+              "  return a, b, c, d",
+              f"def {via}(z):", f"  return {hot}(z)",
+              f"{self.name()} = {hot}('a')", f"{self.name()} = {hot}('b')", f"{self.name()} = {via}('c')",
+              f"{self.name()} = [{hot}('d'), {via}('e'),", f"    {via}('f')]")
     # a function whose parameter is used with a union receiver -> per-member errors
     f = r.choice(funcs)
     self.emit(f"def {self.name()}(q: Union[int, str, bytes, List[int], None], w: Optional[Dict[str, Set[int]]] = None):",
